@@ -393,7 +393,9 @@ UNITS += [
          funcs=[LPQ_F + "get_next_thread"], min_obligations=20,
          doc="T: with enable_stealing == false no queue of another worker is polled (own high / own normal / shared low only)"),
     Unit("sq.get_next_thread", "queues.c", defines=QDEFS + ["U_STATIC_GET_NEXT"], enforce="static_get_next_thread",
-         lifts={"body": Lift(SQS, r"bool get_next_thread\(std::size_t num_thread, bool,", rules=[
+         lifts={"body": Lift(SQS, r"bool get_next_thread\(std::size_t num_thread, bool(?: \w+)?,", rules=[
+             Sub(r"bool /\*\s*\w+\s*\*/", "bool", None),
+             Call(r"\bbase_type::get_next_thread", "base_get_next_thread(self, {0}, {1}, &({2}), {3})", None),
              Sub(r"using\s+\w+\s*=[^;]*;", "", None),
              Sub(r"\bthread_queue_type\s*\*", "struct tq *", None),
              Sub(r"this->queues_\.size\(\)", "self->num_queues_", None),
